@@ -1214,6 +1214,7 @@ class Catchment(object):
 
         if idxinlets is None:
             idxinlets = -1*np.ones(0, dtype=np.int64)
+            self._idxinlets = None
         else:
             idxinlets = np.atleast_1d(idxinlets).astype(np.int64)
             self._idxinlets = idxinlets
